@@ -151,6 +151,35 @@ func (n *node) close() {
 	}
 }
 
+// ghostLink reports a link between a and b to both controllers and returns the function that reports its loss; the
+// link never carries a stream (opening one fails: it is gone before anybody uses it).
+func ghostLink(a, b *node, linkID uint64) (lose func(), err error) {
+	var undo []func()
+	for _, x := range []struct{ n, r *node }{{a, b}, {b, a}} {
+		ml := &fakes.MountedLink{UUID: linkID, Local: x.n.peerID(), Remote: x.r.peerID()}
+		ml.OpenFn = func(context.Context, protocol.ID) (link.MountedStream, error) {
+			return nil, errors.New("verif: link closed")
+		}
+		inst := fakes.NewInstance(link.NewEstablishLinkWithPeer("", ml.Remote))
+		if _, err := x.n.ctrl.HandleDirective(x.n.ctx, inst); err != nil {
+			return nil, err
+		}
+		refs := inst.LiveRefs()
+		if len(refs) != 1 || refs[0].Handler == nil {
+			return nil, errors.New("pubsub controller did not watch the link directive")
+		}
+		av := directive.NewAttachedValue(1, link.MountedLink(ml))
+		h := refs[0].Handler
+		h.HandleValueAdded(inst, av)
+		undo = append(undo, func() { h.HandleValueRemoved(inst, av) })
+	}
+	return func() {
+		for _, f := range undo {
+			f()
+		}
+	}, nil
+}
+
 // connectCtl wires two controller-mode nodes: both controllers are told about the link; the side that opens the
 // pubsub stream gets one end of a tapped pipe, the other end is handed to the remote controller's stream handler.
 func connectCtl(t *tap, a, b *node, linkID uint64) (*pipeDir, *pipeDir, *atomic.Bool, error) {
